@@ -1271,6 +1271,11 @@ pub fn exec(ctx: &mut Ctx, op: &Value) -> (Value, Value) {
                     j["src_uri_matches"] = json!(fr.as_ref().and_then(|f| f.uri.clone()) == c.source_uri && c.source_uri.is_some());
                     let text = catch_unwind(AssertUnwindSafe(|| m.frame_text_by_id(c.source_frame_id))).ok().and_then(|r| r.ok()).unwrap_or_default();
                     j["value_in_text"] = json!(text.to_lowercase().contains(&c.value.to_lowercase()));
+                    // the whole document (for a chunked one: all chunks) - tells a value taken from another part of the document
+                    // from a value the extractor made up
+                    let doc = catch_unwind(AssertUnwindSafe(|| m.frame_canonical_payload(c.source_frame_id))).ok().and_then(|r| r.ok())
+                        .map(|b| String::from_utf8_lossy(&b).to_lowercase()).unwrap_or_default();
+                    j["value_in_doc"] = json!(doc.contains(&c.value.to_lowercase()));
                     out.push(j);
                 }
                 let snap: Value = serde_json::from_str(&memvid_core::verif::snapshot(m)).unwrap_or(json!({}));
